@@ -133,7 +133,7 @@ def c04(ctx):
     n11 = RU.rule_r11_notnone(ctx, prog)
     ctx.floor("R11", n11, 2, "NotNone constructions (new and the derived Clone; try_new may delegate to new)")
     n14 = RU.rule_r14(ctx, prog)
-    ctx.floor("R14", n14, 4, "rand call sites")
+    ctx.floor("R14", n14, 2, "rand call sites")      # one generator and one draw at least (both selections may share a private pivot helper)
     RSG.rule_r21_compaction(ctx, prog)
     RZ.run_zones(ctx, prog, prog.find("maybe_nan::remove_nan_mut"), lambda st, za: None, "true (any view)", floor=8)
     # the 14 element types: every MaybeNan impl's remove_nan_mut goes through the same audited path
@@ -309,9 +309,17 @@ def _roots_in(prog, *mods):
     return [b for b in all_roots(prog) if any(m in b.key for m in mods)]
 
 
+def _inlined(prog, roots):
+    """the routines with their private, small helpers read in place: a pairing / traversal that was moved into a helper shared by
+    several routines is judged per routine, with the routine's own operands"""
+    from .facts import inline_calls
+    from .rules_zones import helper_filter
+    return [inline_calls(prog, b, helper_filter(prog)) for b in roots]
+
+
 def c09(ctx):
     prog = ctx.prog("dev")
-    roots = _roots_in(prog, "deviation::DeviationExt")
+    roots = _inlined(prog, _roots_in(prog, "deviation::DeviationExt"))
     pairs = RL.rule_r9(ctx, prog, roots)
     ctx.floor("R9", len(pairs), 4, "Zip pairings in deviation.rs")
     RL.rule_r1(ctx, prog, scope=lambda b: "deviation::" in b.key)
